@@ -43,6 +43,7 @@ import (
 	"github.com/insomniacslk/dhcp/rfc1035label"
 
 	"verifmc/checks/lease"
+	"verifmc/checks/pd"
 	"verifmc/ev"
 	"verifmc/pkt"
 	"verifmc/reg"
@@ -367,6 +368,20 @@ func worker(id string, args []string) int {
 	if err := json.Unmarshal([]byte(args[0]), &v); err != nil {
 		panic(err)
 	}
+	if v.Plugin == stateGraph {
+		// the two built-in plugins with state: their request/renewal/aging graphs (as in C02 and
+		// C08) explored within a time budget for panics of an accepted configuration
+		budget := 60 * time.Second
+		if reg.Tier == "thorough" {
+			budget = 3 * time.Minute // (the worker itself is given 5 minutes)
+		}
+		if v.Proto == 4 {
+			lease.Crash(r, id, budget, reg.Tier != "thorough")
+		} else {
+			pd.Crash(r, id, budget, reg.Tier != "thorough")
+		}
+		return reg.WorkerExit(r)
+	}
 	if v.Plugin == loaderChain {
 		runLoaderChain(r, id, v)
 		return reg.WorkerExit(r)
@@ -378,6 +393,10 @@ func worker(id string, args []string) int {
 	runVec(r, id, v)
 	return reg.WorkerExit(r)
 }
+
+// stateGraph marks the C19 vectors that explore the state graphs of range (Proto 4) and prefix
+// (Proto 6).
+const stateGraph = "@state-graph-of-the-lease-plugin"
 
 // loaderChain marks a C19 configuration that is a list of built-in plugins (Args = their names)
 // in ONE section, loaded through the real plugins.LoadPlugins - including plugins that have no
@@ -573,8 +592,80 @@ func typed4(code byte, d []byte) ([]byte, error) {
 	return d, nil
 }
 
+// irrelevant4: what an option plugin emits depends on its configuration and on whether the
+// client asked for the option - not on any other option of the request. A base request (full
+// parameter request list) is repeated with every other option code in three payload shapes;
+// the plugin's own options in the reply must be what they were for the base request.
+func irrelevant4(r *ev.Run, id string, v Vec, h handler.Handler4) {
+	codes := ownCodes4[v.Plugin]
+	if len(codes) == 0 || id != "C17" {
+		return
+	}
+	prl := append([]byte{}, codes...)
+	build := func(extra *pkt.Opt4, mt byte) []byte {
+		p := pkt.V4{Op: 1, HType: 1, HLen: 6, Xid: 0x17171718, Flags: 0x8000}
+		copy(p.CHAddr[:], []byte{2, 0, 0, 0x17, 0, 2})
+		p.Opts = []pkt.Opt4{{Code: 53, Data: []byte{mt}}, {Code: 55, Data: prl}}
+		if extra != nil {
+			p.Opts = append(p.Opts, *extra)
+		}
+		return p.Bytes()
+	}
+	own := func(b []byte, mt byte) (string, string) {
+		req, err := dhcpv4.FromBytes(b)
+		if err != nil {
+			return "", "unparseable"
+		}
+		resp := mkResp4(req, req4{ack: mt == 3})
+		pan := ""
+		var out *dhcpv4.DHCPv4
+		func() {
+			defer func() {
+				if e := recover(); e != nil {
+					pan = fmt.Sprint(e)
+				}
+			}()
+			out, _ = h(req, resp)
+		}()
+		if pan != "" || out == nil {
+			return "", "no-reply:" + pan
+		}
+		w, err := pkt.ParseV4(out.ToBytes())
+		if err != nil {
+			return "", "reply-unparseable"
+		}
+		var sb strings.Builder
+		for _, c := range codes {
+			d, n := w.Get(c)
+			fmt.Fprintf(&sb, "%d:%dx%x ", c, n, d)
+		}
+		return sb.String(), ""
+	}
+	for _, mt := range []byte{1, 3} {
+		base, berr := own(build(nil, mt), mt)
+		if berr != "" {
+			continue
+		}
+		skip := append([]byte{55}, codes...)
+		for _, x := range pkt.Extra4(skip...) {
+			x := x
+			b := build(&x, mt)
+			got, gerr := own(b, mt)
+			if gerr == "unparseable" {
+				continue
+			}
+			if gerr != "" || got != base {
+				r.Violate(fmt.Sprintf("C17/%s/v4/depends-on-unrelated-request-option", v.Plugin), fmt.Sprintf("%s %q: with option %d (%x) added to the request the plugin's options in the reply are %q (%s); without it %q", v.Plugin, v.Args, x.Code, x.Data, got, gerr, base), Case{v, hex.EncodeToString(b), fmt.Sprintf("extra option %d", x.Code)})
+				break
+			}
+		}
+		r.Eval(v.Plugin + "/v4/irrelevant-request-options")
+	}
+}
+
 func run4(r *ev.Run, id string, v Vec, h handler.Handler4) {
 	codes := ownCodes4[v.Plugin]
+	defer irrelevant4(r, id, v, h)
 	for _, rq := range battery4(codes) {
 		c := Case{v, hex.EncodeToString(rq.bytes), rq.desc}
 		req, err := dhcpv4.FromBytes(rq.bytes)
@@ -1019,6 +1110,8 @@ func run(r *ev.Run, id string) {
 		vecs = c19Vectors(scratch, !r.Quick())
 		r.Rule("plus, for the range plugin (the one built-in with persistent state): every history of <= 2 requests (3 clients, DISCOVER/REQUEST), a restart on the lease database opened read-only (environment fault; a start-up error is accepted), then every history of <= 2 further requests; oracle: no panic.")
 		vecs = append(vecs, Vec{Plugin: "range", Proto: 4, Args: []string{roHistories}})
+		r.Rule("plus the state graphs of range and prefix (requests with every hint / hardware-address shape, restarts, aging by hours and days) explored breadth-first within a time budget: no panic of an accepted configuration on any history.")
+		vecs = append(vecs, Vec{Plugin: stateGraph, Proto: 4}, Vec{Plugin: stateGraph, Proto: 6})
 		r.Rule("plus chains through the real loader: every ordered pair (thorough: every triple with server_id first) of the 15 built-in plugins in one section, for both protocols - plugins without a set-up function for that protocol are skipped by the loader and may be followed by others; each accepted chain is driven with the request battery through HandleMsg4/6: no panic, replies parse.")
 		var names []string
 		for n := range Plugins {
